@@ -57,9 +57,11 @@ def common_copies_identical():
 def legacy_stage(ctx, sd, rnd, mc):
     """The legacy path lib/controller/fed_collections.go, same contract."""
     pkg = "lib/controller"
-    mc(sd, "FedFetch", "MC_FedFetch_legacy.cfg", timeout=2400,
-       label="legacy variant, exhaustive: refinement, FirstIsHonest, ChanFits, termination")
-    got, r = ctx.gen(sd, "FedFetch", "Gen_FedFetch_legacy.cfg", timeout=2400, label="scenario emission (legacy variant)")
+    if ctx.thorough:
+        mc(sd, "FedFetch", "MC_FedFetch_legacy.cfg", timeout=2400,
+           label="legacy variant, exhaustive: refinement, FirstIsHonest, ChanFits, termination")
+    got, r = ctx.gen(sd, "FedFetch", "Gen_FedFetch_legacy.cfg", timeout=2400,
+                     label="scenario emission (legacy variant) + invariants/refinement on every emitted path")
     ctx.extra["legacy_scenarios_emitted"] = len(got)
     scns = []
     base = 3 * 10 ** 6
@@ -72,12 +74,19 @@ def legacy_stage(ctx, sd, rnd, mc):
             s["rseed"] = ctx.seed * 11 + rep
             s["req"] = ["exact", "exact", "hexoff", "exact", "len"][(s["id"] + rep + ctx.seed) % 5]
             scns.append(s)
-    for i in range(4000 if ctx.thorough else 600):
+    if not ctx.thorough:
+        # quick tier: every short scenario, a seeded sample of the others (HTTP round trips are slow)
+        short = [s for s in scns if len(s["steps"]) <= 2]
+        rest = [s for s in scns if len(s["steps"]) > 2]
+        rnd.shuffle(rest)
+        scns = short + rest[:max(0, 1600 - len(short))]
+    for i in range(4000 if ctx.thorough else 300):
         s = random_scenario(rnd, base + 500000 + i, ctx.seed)
         s["path"] = "legacy"
         s["steps"] = [st for st in s["steps"] if st["k"] != "cancel"]     # no early cancels over HTTP (see driver)
         if s["req"] == "hints":
             s["req"] = "exact"              # a hash with hints is not a legacy by-PDH request (regexp), goes to Rails
+        s["seq"] = rnd.random() < 0.3      # MaxRequestAmplification = 1: sequential remote requests
         if s["mode"] == "uuid" and s["home"] == 0:
             s["home"] = 1                   # a local UUID is not handled by the legacy federation code
             s["steps"] = [{"b": 1, "k": s["plan"][1]}]
@@ -85,6 +94,10 @@ def legacy_stage(ctx, sd, rnd, mc):
     scns.append(dict(id=base + 900000, n=1, mode="uuid", home=1, plan=["s404", "match", "s404", "s404", "s404"],
                      steps=[{"b": 1, "k": "match"}], rseed=ctx.seed, req="exact", origin="crafted", craft="loc_eol",
                      path="legacy"))
+    # re-confirms KF-C18-2 on every run
+    scns.append(dict(id=base + 900001, n=2, mode="pdh", home=0, plan=["s404", "match", "s404", "s404", "s404"],
+                     steps=[{"b": 0, "k": "s404"}, {"b": 2, "k": "s404"}, {"b": 1, "k": "match"}], rseed=ctx.seed,
+                     req="exact", origin="crafted", craft="no_final_newline", path="legacy"))
     ov = ctx.harness_overlay(pkg, "harness/C18_controller", extra=PAM)
     events, out = ctx.go_run_driver(pkg, ov, "TestVerifC18Legacy$", scns, timeout=1500)
     return scns, events
@@ -100,7 +113,8 @@ def run(ctx):
     mc(sd, "FedFetch", "MC_FedFetch_big.cfg" if ctx.thorough else "MC_FedFetch.cfg", timeout=2400,
        extra=["-coverage", "1"] if ctx.thorough else [],
        label="exhaustive: refinement, FirstIsHonest, ChanFits, termination")
-    got, r = ctx.gen(sd, "FedFetch", "Gen_FedFetch.cfg", timeout=2400, label="scenario emission")
+    got, r = ctx.gen(sd, "FedFetch", "Gen_FedFetch.cfg", timeout=2400,
+                     label="scenario emission + invariants/refinement on every emitted path")
     ctx.extra["scenarios_emitted"] = len(got)
     scns = []
     reps = 4 if ctx.thorough else 1
@@ -134,13 +148,15 @@ def run(ctx):
     ctx.extra["legacy_traces"] = len(vlib.split_traces(levents))
     traces = vlib.split_traces(events)
     ctx.evaluations = len(traces)
+    def kf2(t):
+        return t[0].get("path") == "legacy" and any(e["ev"] == "done" and e.get("shape") == "no_final_newline" for e in t)
     # impl-model prediction vs. real outcome, where what was really sent is what the model planned
     # (a "mismatch" whose tampering only touched hints still hashes to the requested value)
     nd = nu = 0
     for t in traces:
         s = by_id.get(t[0].get("scn"))
         d = [e for e in t if e["ev"] == "done"]
-        if s and s["origin"] == "model" and s["req"] in ("exact", "hints") and d:
+        if s and s["origin"] == "model" and s["req"] in ("exact", "hints") and d and not kf2(t):
             planned = {e["b"]: e["k"] for e in t if e["ev"] == "answer"}
             same = all(s["plan"][b] == k or k == "cancelled" for b, k in planned.items())
             if same and t[0].get("unused_steps"):
@@ -151,8 +167,24 @@ def run(ctx):
                     ctx.drift.append("FedFetch.tla predicted %s, code returned ok=%s (scn %s)" % (s["expect"], d[0]["ok"], s["id"]))
     if nu:
         ctx.drift.append("%d model scenarios ended before all steps were used" % nu)
-    ctx.judge(sd, "FedFetchTrace", "Judge_FedFetch.cfg", events, scenario_of=by_id, timeout=2400,
+    # JUDGE.  Legacy-path traces in which a remote sent a manifest without final newline fall into the known
+    # finding KF-C18-2: ALL of them are judged by the contract with that one relation waived (FedFetchTraceKF),
+    # a seeded sample also by the contract proper, which re-confirms the finding on every run.
+    main, kfall = [], []
+    for t in traces:
+        (kfall if kf2(t) else main).append(t)
+    sample = list(kfall)
+    rnd.shuffle(sample)
+    sample = sample[:6 if ctx.thorough else 3]
+    ctx.extra["kf2_traces_judged_with_waiver"] = len(kfall)
+    ctx.judge(sd, "FedFetchTrace", "Judge_FedFetch.cfg", [e for t in main for e in t], scenario_of=by_id, timeout=2400,
               max_rejects=25 if ctx.thorough else 6)
+    if sample:
+        ctx.judge(sd, "FedFetchTrace", "Judge_FedFetch.cfg", [e for t in sample for e in t], scenario_of=by_id,
+                  timeout=600, max_rejects=len(sample) + 1)
+    if kfall:
+        ctx.judge(sd, "FedFetchTraceKF", "Judge_FedFetch.cfg", [e for t in kfall for e in t], scenario_of=by_id,
+                  timeout=1200, max_rejects=6)
     nontrivial = set()
     nrew = 0
     for t in traces:
